@@ -652,9 +652,17 @@ def correspondence(ctx):
     _correspondence_without_tzobj(ctx)
     import sys, tzobjlib
     tzobjlib.validate_str(ctx, sys.modules[__name__])
+    import tzgenlib
+    tzgenlib.validate_local(ctx)
 
 TRUSTED = TRUSTED + [
     "translator tie: harness/translate_obj.py (ObjPy) re-translates tzrange.__init__/transitions/__eq__ and tzstr._delta/__init__ from /repo's working tree into Generated/TzObjKernels.lean on every run; Properties/TzObjGen.lean proves the translated functions equal to the hand model (gen_eq_model_* obligations in the Audit file); an edit of those functions changes the generated file and breaks the translation or a named obligation",
     "named primitives of the ObjPy translator (Model/ObjPy.lean), trusted with their documented meaning and exercised by the tzgen.ical.* / tzgen.str.* / tzgen.range.init|eq validation against the implementation's methods on every run: ASCII str.strip/int()/indexing/slicing, `comp.rrule.before(dt, inc=True)` as the last onset <= dt of the component's onset list, `list.index` on (naive datetime, fold) keys, list insert(0)/append/pop, `with self._cache_lock` transparent, `for` loops as monadic folds with a break flag, `relativedelta(**kwargs)` for the keywords month/day/weekday/yearday/nlyearday/seconds/hours producing the model's Delta record, `datetime(year,1,1) + relativedelta` = TzStr.applyDelta, `parser._parsetz` = TzStr.parse, timedelta(seconds=) with its OverflowError, int-or-None offset arguments (timedelta arguments not modelled), the object under construction as the tuple of its fields",
 ]
 # --- end of the appended block
+
+# --- appended by the translator tie (wt-iso), tzlocal: _naive_is_dst/is_ambiguous/_isdst/utcoffset/dst/tzname are re-translated
+# (Generated/TzObjKernels.lean) and compared with a real tz.tzlocal() under TZ settings (op tzgen.local.wall, in tzgenlib.validate)
+TRUSTED = TRUSTED + [
+    "tzlocal translator tie: `time.localtime(u).tm_isdst` and `time.timezone` are named primitives (Model/ObjPy.lean: localtimeIsdst = the zone model's yearly-rule predicate localNaiveIsdst at u + stdoffset with the fraction floored, timeTimezone = -stdoffset); `getattr(dt, 'fold', None)` is the fold (Python >= 3.6); exercised against tz.tzlocal() under several TZ settings on every run",
+]
